@@ -33,6 +33,7 @@ import (
 	djson "github.com/vimeo/dials/decoders/json"
 	dyaml "github.com/vimeo/dials/decoders/yaml"
 	"github.com/vimeo/dials/sources/file"
+	"github.com/vimeo/dials/sources/static"
 	"github.com/vimeo/dials/sourcewrap"
 	"pgregory.net/rapid"
 
@@ -64,8 +65,10 @@ type C17Doc struct {
 
 // expect is the oracle: the defaults overlaid with the fields the document
 // sets (known by construction, the decoders are not consulted).
-func (d C17Doc) expect() c17Config {
-	c := c17Defaults()
+func (d C17Doc) expect() c17Config { return d.over(c17Defaults()) }
+
+// over is the stacking oracle: base overlaid with the fields the document sets.
+func (d C17Doc) over(c c17Config) c17Config {
 	c.Counter = d.Counter
 	if d.Name != nil {
 		c.Name = *d.Name
@@ -157,6 +160,40 @@ func (d C17Doc) render(dec string) []byte {
 	return []byte(b.String())
 }
 
+// A document of the SECOND watched file (listed before the main file, so
+// lower in the stack): it sets keep ("k<counter>", unique per version) and,
+// when the doc has one, limit - which the main file overrides when it sets
+// limit too. Name and style/2 are ignored.
+func c17SecondOver(d C17Doc, c c17Config) c17Config {
+	c.Keep = fmt.Sprintf("k%d", d.Counter)
+	if d.Limit != nil {
+		c.Limit = *d.Limit
+	}
+	return c
+}
+
+func c17SecondRender(d C17Doc, dec string) []byte {
+	keep := fmt.Sprintf(`"k%d"`, d.Counter)
+	if dec == "json" {
+		switch {
+		case d.Limit == nil:
+			return []byte(`{"keep": ` + keep + `}`)
+		case d.Style%2 == 0:
+			return []byte(fmt.Sprintf(`{"keep":%s,"limit":%d}`, keep, *d.Limit))
+		}
+		return []byte(fmt.Sprintf("{\n  \"limit\": %d,\n  \"keep\": %s\n}\n", *d.Limit, keep))
+	}
+	if d.Limit == nil {
+		return []byte("keep: " + keep + "\n")
+	}
+	if d.Style%2 == 0 {
+		return []byte(fmt.Sprintf("keep: %s\nlimit: %d\n", keep, *d.Limit))
+	}
+	return []byte(fmt.Sprintf("{limit: %d, keep: %s}\n", *d.Limit, keep))
+}
+
+const c17LeadKeep = "lead"
+
 const c17BadTemplates = 4
 
 // c17Bad renders malformed content number k (unique bytes per k, except the
@@ -197,6 +234,9 @@ func c17Decoder(dec string) dials.Decoder {
 
 // C17Op is one file operation.
 type C17Op struct {
+	// "other" (only with a second watched file): the SECOND file gets the
+	// document Doc (content must be "new"; sub: in place instead of
+	// rename-over); the main file is not touched.
 	Mech    string `json:"mech"`              // inplace | rename | delrec | swap (k8s layout) | retarget (link layout) | rmdir (remove the watched directory with everything in it, wait gap_ms, build the layout again with this operation's content) | rollback (rename a file with an OLDER modification time over the config: the backup written when these bytes were current, or a fresh file whose mtime is set back to 2000-01-01)
 	Content string `json:"content"`           // new | same | bad | restore (bytes of the last valid content) | revert (bytes of the valid content before the last one)
 	Doc     C17Doc `json:"doc"`               // when content == new
@@ -214,8 +254,8 @@ func (o C17Op) moves() bool { return o.Mech == "swap" || o.Mech == "retarget" }
 
 // kind is the operation class of the property statement.
 func (o C17Op) kind() string {
-	if o.Mech == "rollback" {
-		return "rollback"
+	if o.Mech == "rollback" || o.Mech == "other" {
+		return o.Mech
 	}
 	switch o.Content {
 	case "same":
@@ -248,6 +288,16 @@ type C17Setup struct {
 	// or rename-over with new valid content; every watch is in place by then),
 	// waits until the view shows the new content (bounded) and returns.
 	InstallOp *C17Op `json:"install_op,omitempty"`
+	// Second: a second watched file (own directory, direct layout, same
+	// decoder type) listed BEFORE the main one in the same Dials; this is its
+	// first document (see c17SecondOver).
+	Second *C17Doc `json:"second,omitempty"`
+	// Lead: a sourcewrap.Blank listed first of all. Right after Config it is
+	// given a static (non-watching) source that sets keep="lead"; after
+	// LeadDoneAt operations of the history (at the end when there are fewer)
+	// Blank.Done() is called while the file watcher(s) go on.
+	Lead       bool `json:"lead,omitempty"`
+	LeadDoneAt int  `json:"lead_done_at,omitempty"`
 }
 
 // counters is the set of document counters used before the first operation.
@@ -255,6 +305,9 @@ func (s C17Setup) counters() map[int]bool {
 	m := map[int]bool{s.Initial.Counter: true}
 	if s.InstallOp != nil {
 		m[s.InstallOp.Doc.Counter] = true
+	}
+	if s.Second != nil {
+		m[s.Second.Counter] = true
 	}
 	return m
 }
@@ -312,7 +365,21 @@ func (s C17Setup) validate() error {
 	if s.PollMS != 0 && (s.PollMS < 20 || s.PollMS > 50) {
 		return fmt.Errorf("poll interval %d ms", s.PollMS)
 	}
+	if s.Second != nil {
+		if err := c17ValidDoc(*s.Second); err != nil {
+			return fmt.Errorf("second: %v", err)
+		}
+		if s.Second.Counter == s.Initial.Counter {
+			return fmt.Errorf("second: counter reused")
+		}
+	}
+	if s.LeadDoneAt < 0 || s.LeadDoneAt > 12 || (!s.Lead && s.LeadDoneAt != 0) {
+		return fmt.Errorf("lead_done_at %d", s.LeadDoneAt)
+	}
 	if o := s.InstallOp; o != nil {
+		if s.Second != nil && o.Doc.Counter == s.Second.Counter {
+			return fmt.Errorf("install_op: counter reused")
+		}
 		if !s.blank() {
 			return fmt.Errorf("install_op without a Blank install")
 		}
@@ -348,6 +415,10 @@ func c17ValidOps(s C17Setup, ops []C17Op, counters map[int]bool, extraPause map[
 		switch o.Mech {
 		case "inplace", "rename", "delrec":
 		case "rmdir":
+		case "other":
+			if s.Second == nil || o.Content != "new" || o.GapMS != 0 {
+				return fmt.Errorf("op %d: other needs a second file, new content and no gap", i)
+			}
 		case "rollback":
 			if o.GapMS != 0 {
 				return fmt.Errorf("op %d: rollback with a gap", i)
@@ -429,6 +500,14 @@ func genC17Setup(t *rapid.T) C17Setup {
 	case "link":
 		s.Link = rapid.SampledFrom([]string{"same", "sub"}).Draw(t, "link")
 	}
+	if rapid.IntRange(0, 3).Draw(t, "second") == 2 {
+		d := genC17Doc(t, 700)
+		s.Second = &d
+	}
+	if rapid.IntRange(0, 3).Draw(t, "lead") == 1 {
+		s.Lead = true
+		s.LeadDoneAt = rapid.IntRange(0, 6).Draw(t, "lead_done_at")
+	}
 	if s.blank() && rapid.Bool().Draw(t, "install_op") {
 		s.InstallOp = &C17Op{
 			Mech:    rapid.SampledFrom([]string{"rename", "inplace"}).Draw(t, "install_mech"),
@@ -451,6 +530,10 @@ func genC17Mech(t *rapid.T, s C17Setup, atomicOnly, rmdirOK bool) string {
 		// (nothing is promised then, only the release checks apply)
 		if die := rapid.IntRange(0, 59).Draw(t, "rmdir"); (s.PollMS > 0 && die >= 48) || (s.PollMS == 0 && die == 37) {
 			return "rmdir"
+		}
+		// the second watched file changes
+		if s.Second != nil && rapid.IntRange(0, 3).Draw(t, "other") == 2 {
+			return "other"
 		}
 		// rolling back to an older file: in every layout
 		if rapid.IntRange(0, 9).Draw(t, "rollback") == 6 {
@@ -476,6 +559,14 @@ func genC17Mech(t *rapid.T, s C17Setup, atomicOnly, rmdirOK bool) string {
 func genC17Op(t *rapid.T, s C17Setup, counter int, content string, atomicOnly, noRevert, rmdirOK bool) C17Op {
 	o := C17Op{Mech: genC17Mech(t, s, atomicOnly, rmdirOK), PauseMS: genC17Pause(t)}
 	free := content == ""
+	if o.Mech == "other" {
+		if free || content == "new" {
+			content = "new"
+			o.Sub = rapid.Bool().Draw(t, "other_inplace")
+		} else {
+			o.Mech = "inplace"
+		}
+	}
 	if content == "" {
 		switch k := rapid.IntRange(0, 19).Draw(t, "content"); {
 		case k < 10:
@@ -591,14 +682,24 @@ func genC17Converge(t *rapid.T) C17Case {
 	// a history that ends invalid: the last valid content must be new (see
 	// the settle step in Run)
 	m := c17ModelAtStart(s)
-	last, endsValid := -1, true
+	last, lastMain, endsValid := -1, -1, true
 	for i, o := range ops {
 		if endsValid = m.step(o).valid; endsValid {
 			last = i
+			if o.Mech != "other" {
+				lastMain = i
+			}
 		}
 	}
-	if !endsValid && last >= 0 && ops[last].Content != "new" {
-		ops[last].Content, ops[last].Doc = "new", spare
+	if !endsValid {
+		if lastMain >= 0 && ops[lastMain].Content != "new" {
+			ops[lastMain].Content, ops[lastMain].Doc = "new", spare
+		}
+		for i := last + 1; i < len(ops); i++ {
+			if ops[i].Mech == "other" { // no change of the second file in the trailing invalid stretch
+				ops[i] = C17Op{Mech: "inplace", Content: "same", PauseMS: ops[i].PauseMS}
+			}
+		}
 	}
 	c := C17Case{C17Setup: s, Ops: ops}
 	// overflow burst: a small fixed fraction of the cases (it costs a few
@@ -611,6 +712,9 @@ func genC17Converge(t *rapid.T) C17Case {
 		if o.Mech == "rmdir" {
 			isBurst = false // the watches are gone, there is no queue to flood
 		}
+	}
+	if s.Second != nil {
+		isBurst = false // two inotify queues
 	}
 	if isBurst {
 		if k > len(ops) {
@@ -644,7 +748,8 @@ func c17Must(err error) {
 type c17State struct {
 	bytes []byte
 	valid bool
-	cfg   c17Config // when valid
+	cfg   c17Config // when valid: the document over the bare defaults
+	doc   C17Doc    // when valid
 }
 
 // c17Model is the pure model of the file's content.
@@ -658,17 +763,20 @@ type c17Model struct {
 }
 
 func c17NewModel(s C17Setup) c17Model {
-	st := c17State{bytes: s.Initial.render(s.Decoder), valid: true, cfg: s.Initial.expect()}
+	st := c17State{bytes: s.Initial.render(s.Decoder), valid: true, cfg: s.Initial.expect(), doc: s.Initial}
 	return c17Model{dec: s.Decoder, cur: st, lastValid: st}
 }
 
 // step returns the content operation o writes and records it.
 func (m *c17Model) step(o C17Op) c17State {
 	m.seq++
+	if o.Mech == "other" {
+		return m.cur // the main file is not touched
+	}
 	next := m.cur
 	switch o.Content {
 	case "new":
-		next = c17State{bytes: o.Doc.render(m.dec), valid: true, cfg: o.Doc.expect()}
+		next = c17State{bytes: o.Doc.render(m.dec), valid: true, cfg: o.Doc.expect(), doc: o.Doc}
 	case "bad":
 		next = c17State{bytes: c17Bad(m.dec, o.Bad, 1000+m.seq)}
 	case "restore":
@@ -701,6 +809,10 @@ type c17World struct {
 	bakDir string
 	baks   map[string]string
 	bakN   int
+	// second watched file (own directory)
+	secDir  string
+	secPath string
+	secDoc  C17Doc
 }
 
 // c17OldTime is the modification time given to a fresh file that is to look
@@ -742,6 +854,13 @@ func c17NewWorld(s C17Setup) *c17World {
 	}
 	w.build(w.cur.bytes)
 	w.keepBackup(w.cur.bytes, nil)
+	if s.Second != nil {
+		w.secDir, err = os.MkdirTemp("", "verif-c17sec-")
+		c17Must(err)
+		w.secPath = filepath.Join(w.secDir, "second."+s.Decoder)
+		w.secDoc = *s.Second
+		c17Must(os.WriteFile(w.secPath, c17SecondRender(w.secDoc, s.Decoder), 0o644))
+	}
 	return w
 }
 
@@ -795,11 +914,31 @@ func (w *c17World) build(b []byte) {
 func (w *c17World) close() {
 	_ = os.RemoveAll(w.root)
 	_ = os.RemoveAll(w.bakDir)
+	if w.secDir != "" {
+		_ = os.RemoveAll(w.secDir)
+	}
 }
 
 // apply performs one operation (not the pause after it) and updates the
 // model. It reports whether the operation exposes the file empty for a moment.
 func (w *c17World) apply(o C17Op) (transientEmpty bool) {
+	if o.Mech == "other" {
+		w.step(o)
+		b := c17SecondRender(o.Doc, w.s.Decoder)
+		if o.Sub {
+			f, err := os.OpenFile(w.secPath, os.O_WRONLY|os.O_TRUNC, 0)
+			c17Must(err)
+			_, err = f.Write(b)
+			c17Must(err)
+			c17Must(f.Close())
+		} else {
+			tmp := filepath.Join(w.secDir, fmt.Sprintf(".tmp-%d", w.seq))
+			c17Must(os.WriteFile(tmp, b, 0o644))
+			c17Must(os.Rename(tmp, w.secPath))
+		}
+		w.secDoc = o.Doc
+		return false
+	}
 	b := w.step(o).bytes
 	var rolled *time.Time
 	defer func() { w.keepBackup(b, rolled) }()
@@ -1062,45 +1201,65 @@ func c17CountWatcherGors() int {
 // waits in its own select; "gone:<who>" when one of them no longer exists;
 // "busy" otherwise.
 func c17IdleOnce() (string, string) {
-	var loop, reader, mon *c17Gor
+	var loops, readers []*c17Gor
+	var mon *c17Gor
 	gs := c17Dump()
 	for i := range gs {
 		switch {
 		case gs[i].isLoop():
-			loop = &gs[i]
+			loops = append(loops, &gs[i])
 		case gs[i].isReader():
-			reader = &gs[i]
+			readers = append(readers, &gs[i])
 		case gs[i].isMonitor():
 			mon = &gs[i]
 		}
 	}
 	var desc []string
-	for _, p := range []struct {
-		n string
-		g *c17Gor
-	}{{"watchLoop", loop}, {"readEvents", reader}, {"monitor", mon}} {
-		if p.g == nil {
-			desc = append(desc, p.n+"=absent")
+	one := func(n string, g *c17Gor) {
+		if g == nil {
+			desc = append(desc, n+"=absent")
 		} else {
-			desc = append(desc, fmt.Sprintf("%s=[%s]@%s", p.n, p.g.state, clip(p.g.topUser(), 70)))
+			desc = append(desc, fmt.Sprintf("%s=[%s]@%s", n, g.state, clip(g.topUser(), 70)))
 		}
 	}
+	for _, g := range loops {
+		one("watchLoop", g)
+	}
+	if len(loops) == 0 {
+		one("watchLoop", nil)
+	}
+	for _, g := range readers {
+		one("readEvents", g)
+	}
+	if len(readers) == 0 {
+		one("readEvents", nil)
+	}
+	one("monitor", mon)
 	d := strings.Join(desc, " ")
 	switch {
-	case loop == nil:
+	case len(loops) < c17Watchers:
 		return "gone:watchLoop", d
-	case reader == nil:
+	case len(readers) < c17Watchers:
 		return "gone:readEvents", d
 	case mon == nil:
 		return "gone:monitor", d
 	}
-	if loop.state == "select" && strings.Contains(loop.topUser(), c17FnLoop) &&
-		reader.state == "IO wait" &&
-		mon.state == "select" && strings.Contains(mon.topUser(), c17FnMonitor) {
+	parked := mon.state == "select" && strings.Contains(mon.topUser(), c17FnMonitor)
+	for _, g := range loops {
+		parked = parked && g.state == "select" && strings.Contains(g.topUser(), c17FnLoop)
+	}
+	for _, g := range readers {
+		parked = parked && g.state == "IO wait"
+	}
+	if parked {
 		return "parked", d
 	}
 	return "busy", d
 }
+
+// c17Watchers is the number of file watchers the running case has started
+// (the test functions of this package run one case at a time).
+var c17Watchers = 1
 
 // The deadline after which the goroutines are inspected. VERIF_C17_DEADLINE_MS
 // shortens it for exploration and replays of known lost updates; verdicts are
@@ -1191,6 +1350,40 @@ type c17Run struct {
 	// configured; the library promises nothing about the view from then on
 	blind bool
 	rmdir bool // some operation removed the watched directory
+	// second watched file / leading Blank
+	ws2      *file.WatchingSource
+	lead     *sourcewrap.Blank
+	leadDone bool
+	ctx      context.Context
+}
+
+// base is everything below the main file in the stack: defaults, the leading
+// Blank's static source, the second watched file.
+func (r *c17Run) base() c17Config {
+	c := c17Defaults()
+	if r.w.s.Lead {
+		c.Keep = c17LeadKeep
+	}
+	if r.w.s.Second != nil {
+		c = c17SecondOver(r.w.secDoc, c)
+	}
+	return c
+}
+
+// want is the whole stacked view for the current content of the files (the
+// main file must be valid).
+func (r *c17Run) want() c17Config { return r.w.cur.doc.over(r.base()) }
+
+// leadDoneAt calls Done on the leading Blank when n operations have run.
+func (r *c17Run) leadDoneAt(n, total int) {
+	if r.lead == nil || r.leadDone {
+		return
+	}
+	if at := r.w.s.LeadDoneAt; n == at || (n == total && at >= total) {
+		r.leadDone = true
+		r.lead.Done(r.ctx)
+		r.label("lead-done")
+	}
 }
 
 // applyOp performs an operation and keeps track of what can still be
@@ -1399,16 +1592,44 @@ func c17Start(s C17Setup, gated bool) (*c17Run, *vrt.Verdict) {
 	}
 	r.ws = ws
 	ctx, cancel := context.WithCancel(context.Background())
-	r.cancel = cancel
+	r.cancel, r.ctx = cancel, ctx
 	def := c17Defaults()
 	params := dials.Params[c17Config]{OnWatchedError: r.obs.onErr, OnNewConfig: r.obs.onNew}
 	var d *dials.Dials[c17Config]
+	// sources listed before the main file: the leading Blank, the second file
+	var before []dials.Source
+	c17Watchers = 1
+	if s.Lead {
+		r.lead = &sourcewrap.Blank{}
+		before = append(before, r.lead)
+	}
+	if s.Second != nil {
+		ws2, err2 := file.NewWatchingSource(r.w.secPath, c17Decoder(s.Decoder), file.WithLogger(r.obs))
+		if err2 != nil {
+			cancel()
+			r.w.close()
+			v := vrt.Violationf("NewWatchingSource(%q): %v", r.w.secPath, err2)
+			return nil, &v
+		}
+		r.ws2 = ws2
+		before = append(before, ws2)
+		c17Watchers = 2
+	}
+	fillLead := func() error {
+		if r.lead == nil {
+			return nil
+		}
+		return r.lead.SetSource(ctx, &static.StringSource{Data: `{"keep": "` + c17LeadKeep + `"}`, Decoder: &djson.Decoder{}})
+	}
 	if s.blank() {
 		// the way ez installs the config file: Config with a Blank, then the
 		// file source is set with a context of the caller's choosing. The
 		// watcher must live exactly as long as the context given to Config.
 		blank := &sourcewrap.Blank{}
-		if d, err = params.Config(ctx, &def, blank); err == nil {
+		if d, err = params.Config(ctx, &def, append(before, blank)...); err == nil {
+			err = fillLead()
+		}
+		if err == nil {
 			r.d = d
 			var src dials.Source = ws
 			if s.InstallOp != nil {
@@ -1418,7 +1639,7 @@ func c17Start(s C17Setup, gated bool) (*c17Run, *vrt.Verdict) {
 					// has delivered the new content, as it would while the
 					// installing goroutine is descheduled.
 					r.w.apply(*s.InstallOp)
-					want := r.w.cur.cfg
+					want := r.want()
 					c17Await(func() bool { return r.viewIs(want) })
 				}}
 			}
@@ -1431,7 +1652,9 @@ func c17Start(s C17Setup, gated bool) (*c17Run, *vrt.Verdict) {
 			}
 		}
 	} else {
-		d, err = params.Config(ctx, &def, ws)
+		if d, err = params.Config(ctx, &def, append(before, ws)...); err == nil {
+			err = fillLead()
+		}
 	}
 	if err != nil {
 		cancel()
@@ -1452,7 +1675,7 @@ func c17Start(s C17Setup, gated bool) (*c17Run, *vrt.Verdict) {
 		// The file was rewritten after the watcher had started: whatever the
 		// order of events inside SetSource, the view must come to hold the
 		// latest content (ordinary convergence rule).
-		if v := r.awaitView(r.w.cur.cfg, "after the rewrite during SetSource", []C17Op{*s.InstallOp}); v != nil {
+		if v := r.awaitView(r.want(), "after the rewrite during SetSource", []C17Op{*s.InstallOp}); v != nil {
 			if v.Status == vrt.StatusViolation {
 				v.Key = "install-stale"
 			}
@@ -1461,7 +1684,7 @@ func c17Start(s C17Setup, gated bool) (*c17Run, *vrt.Verdict) {
 		}
 		return r, nil
 	}
-	if got, want := *d.View(), s.Initial.expect(); got != want {
+	if got, want := *d.View(), r.want(); got != want {
 		v := vrt.KeyedViolationf("initial-view", "initial view %+v, want %+v", got, want)
 		r.finish()
 		return nil, &v
@@ -1513,11 +1736,11 @@ func (r *c17Run) awaitView(want c17Config, what string, ops []C17Op) *vrt.Verdic
 // settleOp implements the settle flag of operation i (already applied): the
 // file has stopped changing, so the view must come to show its document.
 func (r *c17Run) settleOp(ops []C17Op, i int) *vrt.Verdict {
-	if !ops[i].Settle || r.blind {
+	if !ops[i].Settle || r.blind || !r.w.cur.valid {
 		return nil
 	}
 	r.label("settle")
-	return r.awaitView(r.w.cur.cfg, fmt.Sprintf("settle step after operation %d", i), ops[:i+1])
+	return r.awaitView(r.want(), fmt.Sprintf("settle step after operation %d", i), ops[:i+1])
 }
 
 // awaitIdleView waits until the view equals want while the watcher is idle.
@@ -1617,7 +1840,13 @@ func (r *c17Run) releaseChecks() *vrt.Verdict {
 	}
 	r.cancel()
 	done := make(chan struct{})
-	go func() { r.ws.WG.Wait(); close(done) }()
+	go func() {
+		r.ws.WG.Wait()
+		if r.ws2 != nil {
+			r.ws2.WG.Wait()
+		}
+		close(done)
+	}()
 	waited := func() bool {
 		select {
 		case <-done:
@@ -1732,6 +1961,12 @@ func c17OpLabels(s C17Setup, ops []C17Op) (bool, []string) {
 	if s.InstallOp != nil {
 		labels = append(labels, "install-op")
 	}
+	if s.Second != nil {
+		labels = append(labels, "two-files")
+	}
+	if s.Lead {
+		labels = append(labels, "lead-blank")
+	}
 	if s.PollMS > 0 {
 		labels = append(labels, "poll=on")
 	} else {
@@ -1780,14 +2015,27 @@ func runC17Converge(c C17Case) vrt.Verdict {
 	// Model the states to find where the trailing invalid stretch begins.
 	valid := make([]bool, len(c.Ops))
 	lastValidOp := -1 // index of the last operation that leaves the file valid (-1: the initial content)
+	lastMainOp := -1  // the same among the operations on the main file
 	m := c17ModelAtStart(c.C17Setup)
 	for i, o := range c.Ops {
 		valid[i] = m.step(o).valid
 		if valid[i] {
 			lastValidOp = i
+			if o.Mech != "other" {
+				lastMainOp = i
+			}
 		}
 	}
-	if !valid[len(c.Ops)-1] && lastValidOp >= 0 && c.Ops[lastValidOp].Content != "new" {
+	if !valid[len(c.Ops)-1] {
+		for _, o := range c.Ops[lastValidOp+1:] {
+			if o.Mech == "other" {
+				// the error for the malformed main file is not delivered
+				// again after the second file has changed
+				return vrt.Discardf("malformed case: the second file changes inside the trailing invalid stretch")
+			}
+		}
+	}
+	if !valid[len(c.Ops)-1] && lastMainOp >= 0 && c.Ops[lastMainOp].Content != "new" {
 		// When earlier bytes come back (identical / restore / revert) "the
 		// view shows them" does not tell whether the watcher has caught up, so
 		// the last good config before a trailing invalid stretch would be
@@ -1797,6 +2045,9 @@ func runC17Converge(c C17Case) vrt.Verdict {
 	}
 	burstStart := len(c.Ops) // index of the first operation inside the overflow burst
 	if c.Burst != 0 {
+		if c.Second != nil {
+			return vrt.Discardf("malformed case: burst with two watchers")
+		}
 		if c.Burst < 1 || c.Burst > 3 || c.Burst > len(c.Ops) {
 			return vrt.Discardf("malformed case: burst %d", c.Burst)
 		}
@@ -1829,7 +2080,7 @@ func runC17Converge(c C17Case) vrt.Verdict {
 			// The file is valid now and only invalid content follows: wait
 			// until the watcher has delivered it, so that "the last good
 			// config" is unambiguous.
-			lastGood = r.w.cur.cfg
+			lastGood = r.want()
 			if r.blind {
 				return nil
 			}
@@ -1842,6 +2093,7 @@ func runC17Converge(c C17Case) vrt.Verdict {
 			}
 		}
 		for i, o := range c.Ops {
+			r.leadDoneAt(i, len(c.Ops))
 			if i == burstStart {
 				r.beginBurst()
 			}
@@ -1865,6 +2117,7 @@ func runC17Converge(c C17Case) vrt.Verdict {
 		if r.gate != nil {
 			r.gate.open() // end of the burst: the watcher goes on
 		}
+		r.leadDoneAt(len(c.Ops), len(c.Ops))
 		// harness self-check: the model and the disk agree
 		if onDisk, err := os.ReadFile(r.w.visible); err != nil || string(onDisk) != string(r.w.cur.bytes) {
 			r.finish()
@@ -1892,7 +2145,7 @@ func runC17Converge(c C17Case) vrt.Verdict {
 			default:
 				r.label("final=" + lc)
 			}
-			if v := r.awaitView(r.w.cur.cfg, "after the last operation", c.Ops); v != nil {
+			if v := r.awaitView(r.want(), "after the last operation", c.Ops); v != nil {
 				r.finish()
 				return *v
 			}
@@ -1900,7 +2153,7 @@ func runC17Converge(c C17Case) vrt.Verdict {
 			// the view can show the final config before the watcher has caught
 			// up. Keep looking until the watcher is idle with the right view;
 			// a view that moves away for good is a lost update like any other.
-			if v := r.awaitIdleView(r.w.cur.cfg, c.Ops); v != nil {
+			if v := r.awaitIdleView(r.want(), c.Ops); v != nil {
 				r.finish()
 				return *v
 			}
@@ -1912,7 +2165,7 @@ func runC17Converge(c C17Case) vrt.Verdict {
 			// defaults.
 			accept := []c17Config{lastGood}
 			if c.Decoder == "yaml" && tailEmpty {
-				accept = append(accept, c17Defaults())
+				accept = append(accept, r.base()) // the main file contributes nothing
 			}
 			cond := func() bool {
 				cur := *r.d.View()
@@ -1976,6 +2229,9 @@ func TestC17Converge(t *testing.T) {
 			"in half of the Blank installs the file is rewritten while SetSource is still in progress (install_op: the source given to SetSource is a thin wrapper whose Watch calls the real Watch - so every inotify watch is in place -, " +
 			"then performs one in-place write or rename-over with new valid content, waits (bounded, deciding nothing) until the view shows it, and returns); whatever the order of events inside SetSource, " +
 			"the view must then hold the latest content (ordinary convergence rule, key install-stale), and the history starts from there; " +
+			"More watching sources in the same Dials, listed BEFORE the main file: (1 case in 4) a second watched file in a directory of its own that sets keep (unique per version) and sometimes limit - the main file's limit wins - " +
+			"and is rewritten by 'other' operations (rename-over or in place) in the same history; (1 in 4) a leading sourcewrap.Blank that gets a static source (keep=lead) right after Config and calls Done() after lead_done_at operations while the file watchers go on. " +
+			"The oracle is always the WHOLE stacked view: defaults < leading Blank < second file < main file, known by construction. " +
 			"1..12 operations {rollback: a file with an OLDER modification time is renamed over the config - the backup copy written when those bytes were current (restore / revert / identical content), " +
 			"or for new or malformed content a fresh file whose mtime is set back to 2000-01-01; the view must hold the rolled-back content like after any rename-over; remove the whole watched directory, keep it away for 0/60/150 ms, build the layout again with new content (rmdir), in-place truncate+write, temp+rename-over, ..ts-N/<link> swap or symlink retarget with or without removal of the old directory/target, delete+recreate} " +
 			"each writing new valid content (unique counter), identical bytes, malformed content, the last valid content again (restore) or the valid content before that (revert), with pauses of 0/1/30 ms from the case " +
@@ -1998,6 +2254,7 @@ func TestC17Converge(t *testing.T) {
 			"the Kubernetes swap is modelled as mkdir ..ts-N, write file, symlink <link>_tmp, rename over <link>, optionally RemoveAll of the previous directory; operations on the content act on the regular file behind the symlinks",
 			"the plain-symlink layout is an extension of the property's list (an atomic rename-over of the watched path itself)",
 			"inotify is available; hitting the per-user inotify instance limit discards the case",
+			"with two watched files the goroutine rule needs every watch loop and every fsnotify reader parked; no overflow burst then; the second file does not change inside a trailing invalid stretch of the main file (the decoder error would not be delivered again)",
 			"with the fallback poll on, a view that still differs at the 10 s deadline while the watch loop sits in its select in three dumps is a violation although a later tick could in principle still change it: some 250 ticks have passed by then",
 			"WithPollInterval is documented as a fallback ticker that triggers polling for changes: every tick re-reads the path, whatever happened to the watches",
 			"overflow burst: alternating mkdir/rmdir events of one name are not coalesced by inotify; a queue that holds at least max_queued_events*16 bytes and does not grow over 512 further events is full (label overflow-seen); fsnotify reports the marker as an error on Watcher.Errors",
@@ -2066,8 +2323,8 @@ func runC17Ident(c C17IdentCase) vrt.Verdict {
 		return vrt.Discardf("malformed case: prefix must end with valid content")
 	}
 	for _, o := range c.Prefix {
-		if o.Mech == "rmdir" {
-			return vrt.Discardf("malformed case: rmdir in the prefix")
+		if o.Mech == "rmdir" || o.Mech == "other" {
+			return vrt.Discardf("malformed case: %s in the prefix", o.Mech)
 		}
 	}
 
@@ -2093,6 +2350,7 @@ func runC17Ident(c C17IdentCase) vrt.Verdict {
 		all := append(append(append([]C17Op{}, c.Prefix...), c.Repl...), c.Change)
 		_, r.labels = c17OpLabels(c.C17Setup, all)
 		for i, o := range c.Prefix {
+			r.leadDoneAt(i, len(c.Prefix))
 			r.applyOp(o)
 			if v := r.settleOp(c.Prefix, i); v != nil {
 				r.finish()
@@ -2104,7 +2362,8 @@ func runC17Ident(c C17IdentCase) vrt.Verdict {
 		// the view shows the prefix's final document the watcher has read
 		// those very bytes; the file does not change any more, hence every
 		// later read sees the same bytes.
-		if v := r.awaitView(r.w.cur.cfg, "after the prefix", c.Prefix); v != nil {
+		r.leadDoneAt(len(c.Prefix), len(c.Prefix))
+		if v := r.awaitView(r.want(), "after the prefix", c.Prefix); v != nil {
 			r.finish()
 			return *v
 		}
@@ -2126,7 +2385,7 @@ func runC17Ident(c C17IdentCase) vrt.Verdict {
 		// is atomic, hence the only contents ever readable were the old bytes
 		// and the new ones: exactly one new version is allowed.
 		r.w.apply(c.Change)
-		if v := r.awaitView(r.w.cur.cfg, "after the real change", all); v != nil {
+		if v := r.awaitView(r.want(), "after the real change", all); v != nil {
 			r.finish()
 			return *v
 		}
@@ -2202,6 +2461,7 @@ func runC17Release(c C17ReleaseCase) vrt.Verdict {
 		}
 		_, r.labels = c17OpLabels(c.C17Setup, c.Ops)
 		for i, o := range c.Ops[:c.CancelAt] {
+			r.leadDoneAt(i, len(c.Ops))
 			r.applyOp(o)
 			if v := r.settleOp(c.Ops, i); v != nil {
 				r.finish()
@@ -2212,10 +2472,12 @@ func runC17Release(c C17ReleaseCase) vrt.Verdict {
 		c17Sleep(c.CancelDelayMS)
 		r.cancel()
 		// the file keeps changing after cancel
-		for _, o := range c.Ops[c.CancelAt:] {
+		for i, o := range c.Ops[c.CancelAt:] {
+			r.leadDoneAt(c.CancelAt+i, len(c.Ops))
 			r.applyOp(o)
 			c17Sleep(o.PauseMS)
 		}
+		r.leadDoneAt(len(c.Ops), len(c.Ops))
 		v = r.release()
 		r.w.close()
 		if v != nil {
